@@ -39,6 +39,10 @@ PROPS = {
     # engine 'single': one harness binary run as 16 run-time shards; failing inputs are the
     # harness's direct property checks (X lines), a bare disagreement is a broken correspondence
     'C12': dict(engine='single', name='life', source='life_main.cpp', runs=[['--mode', 'life', '--which', 'variant']], witness=False),
+    # engine 'pair': harness/pair_main.cpp over a pool with (writer type, reader type) pairs; the model
+    # decoder's result on a cross-version read is, by C07_cross_version, what the property requires
+    'C07': dict(engine='pair', pool='x', modes=['xver'], witness=True, values=(5, 40)),
+    'C08': dict(engine='pair', pool='x', modes=['frame'], witness=False, values=(8, 80)),
     'C15': dict(witness=False, stages=[
         dict(engine='codec', pool='h', modes=['handles'], values=(6, 60), witness_ops=['enc']),
         dict(engine='single', name='life', source='life_main.cpp', runs=[['--mode', 'uh']])]),
@@ -155,6 +159,8 @@ class Run:
             eng = self.cfg['engine']
             if eng == 'codec':
                 self.codec_stage()
+            elif eng == 'pair':
+                self.codec_stage(pair=True)
             elif eng == 'util':
                 self.util_stage()
             elif eng == 'single':
@@ -207,8 +213,8 @@ class Run:
         self.cov['rule'] = ('each evaluation is one operation history / input executed on the real library and on the Lean model and '
                             'compared (per-operation observations, final state of every object, event log); distinct = distinct history lines')
 
-    def codec_stage(self):
-        bins = nv.build_codec(self.cfg.get('pool', 'a'))
+    def codec_stage(self, pair=False):
+        bins = nv.build_pair(self.cfg.get('pool', 'x')) if pair else nv.build_codec(self.cfg.get('pool', 'a'))
         nvals = self.cfg['values'][1 if self.tier == 'thorough' else 0]
         evaluations = 0
         distinct = set()
@@ -217,7 +223,7 @@ class Run:
             if self.tier == 'thorough':
                 args.append('--thorough')
             streams = nv.run_shards(bins, args)
-            self.absorb(streams, 'codec/' + mode)
+            self.absorb(streams, ('pair/' if pair else 'codec/') + mode)
             for s in streams:
                 evaluations += len(s.pairs)
                 for (mi, r) in s.pairs:
